@@ -313,8 +313,10 @@ impl<W: WriteColor> SearchWorker<W> {
             )
         })?;
         let result = self.search_reader(path, &mut rdr).map_err(|err| {
+            // Keep the kind of the error: callers recognise a broken pipe
+            // (the consumer of our output went away) by it.
             io::Error::new(
-                io::ErrorKind::Other,
+                err.kind(),
                 format!("preprocessor command failed: '{:?}': {}", cmd, err),
             )
         });
